@@ -44,7 +44,8 @@ class TreeTrace:
     def judge(self, rep, label="Trace_Tree"):
         """Runs TLC; returns list of (tid, idx, clause, label, tree-ir, info)."""
         from concurrent.futures import ThreadPoolExecutor
-        nshards = max(1, min(8, self.ntrees // 4000))
+        # TLC cannot follow a behaviour of 65536 or more states, and one event is one state: at most 30000 events per file
+        nshards = max(1, min(8, self.ntrees // 4000), -(-(self.ntrees + len(self.glines)) // 30000))
         shards = []
         for i in range(nshards):
             ts = [t for t in self.tlines if t[0] % nshards == i]
@@ -66,7 +67,7 @@ class TreeTrace:
 
         def one(sh):
             return run_tlc("Trace_Tree", "Trace_Tree", workers=1, env={"TRACE_FILE": sh[0]}, timeout=3000, heap="8g" if nshards == 1 else "4g")
-        with ThreadPoolExecutor(len(shards)) as ex:
+        with ThreadPoolExecutor(min(8, len(shards))) as ex:
             results = list(ex.map(one, shards))
         out = []
         for (path, want), r in zip(shards, results):
